@@ -114,6 +114,9 @@ def make_merge_check(pid):
             # ... and the written-out running order read back through the command line (file, S3 prefix, S3 key)
             from . import io_family
             io_family.detect_completed_check(oc, pid)
+            # ... and what the command line itself writes out (real processes; a failing and a late message among them)
+            from . import ser_family
+            ser_family.cli_written_out(oc)
         if pid == 'C12':
             # whether float() raises on a timing field is what a merge depends on: the model's grammar against the interpreter's
             from . import access_family
